@@ -212,8 +212,9 @@ def check_e2e(c):
     d = workdir("c02e_")
     try:
         path = os.path.join(d, "im.fits")
-        skyimg.write_fits(path, F["img"], F["hdr"])
-        out = SourceFinder().find_sources_in_image(path, rms=1.0, bkg=0.0, innerclip=seed, outerclip=flood, docov=False, cores=1)
+        skyimg.write_fits(path, F["img"], F["hdr"], rep=c.get("rep"))
+        out = SourceFinder().find_sources_in_image(path, rms=1.0, bkg=0.0, innerclip=seed, outerclip=flood, docov=False, cores=1,
+                                                     **skyimg.cube_kw(c.get("rep")))
     finally:
         shutil.rmtree(d, ignore_errors=True)
     comps = [s for s in out if isinstance(s, ComponentSource)]
@@ -245,7 +246,7 @@ def check_e2e(c):
 
 def e2e_strategy():
     from vlib import fields
-    return st.fixed_dictionaries({"field": fields.field_strategy, "clip": st.sampled_from([(5.0, 4.0), (6.0, 3.0), (10.0, 10.0)])})
+    return st.fixed_dictionaries({"rep": skyimg.rep_strategy_exact, "field": fields.field_strategy, "clip": st.sampled_from([(5.0, 4.0), (6.0, 3.0), (10.0, 10.0)])})
 
 
 TESTS = {
